@@ -32,7 +32,7 @@ class TreeSpec:
     nontrivial: Callable
     extra: Callable | None = None  # cd -> strategy
     quick_examples: int = 25
-    thorough_examples: int = 200
+    thorough_examples: int = 300
     quick_extra_classes: int = 150
     class_filter: Callable | None = None  # cd -> bool
     sample_of: Callable | None = None  # (cd, tree, extra) -> JSON-able sample
